@@ -6,7 +6,13 @@ import (
 	"bytes"
 	"unicode/utf8"
 
+	gencoding "github.com/gdamore/encoding"
+	xenc "golang.org/x/text/encoding"
+	"golang.org/x/text/encoding/charmap"
+	"golang.org/x/text/encoding/japanese"
 	"golang.org/x/text/encoding/korean"
+	"golang.org/x/text/encoding/simplifiedchinese"
+	"golang.org/x/text/encoding/traditionalchinese"
 )
 
 // C11 — typed and pasted text is delivered rune for rune, in order.
@@ -123,24 +129,132 @@ func H11_paste() {
 	}
 }
 
-// H11_legacy: a registered multi-byte legacy charset (EUC-KR, the real x/text
-// decoder executed symbolically): every two-byte Hangul syllable, followed by an
-// ASCII letter, split anywhere, arrives as the syllable then the letter.
-func H11_legacy() {
+// h11SB: the single-byte charsets the encoding package registers.
+var h11SB = []struct {
+	name string
+	enc  xenc.Encoding
+}{
+	{"ISO8859-1", gencoding.ISO8859_1}, {"ISO8859-9", gencoding.ISO8859_9},
+	{"ISO8859-2", charmap.ISO8859_2}, {"ISO8859-3", charmap.ISO8859_3}, {"ISO8859-4", charmap.ISO8859_4},
+	{"ISO8859-5", charmap.ISO8859_5}, {"ISO8859-6", charmap.ISO8859_6}, {"ISO8859-7", charmap.ISO8859_7},
+	{"ISO8859-8", charmap.ISO8859_8}, {"ISO8859-10", charmap.ISO8859_10}, {"ISO8859-13", charmap.ISO8859_13},
+	{"ISO8859-14", charmap.ISO8859_14}, {"ISO8859-15", charmap.ISO8859_15}, {"ISO8859-16", charmap.ISO8859_16},
+	{"KOI8-R", charmap.KOI8R}, {"KOI8-U", charmap.KOI8U},
+}
+
+// H11_single: every printable character of a single-byte legacy charset (any byte
+// >= 0x80 the charset defines), between two ASCII letters, typed or pasted, split
+// anywhere, arrives as its rune, in order.
+func H11_single() {
+	cs := h11SB[vsymChoice("charset", len(h11SB))]
+	vsymNote("charset", cs.name)
 	t := hNewTScreen("xterm-256color")
-	t.charset = "EUC-KR"
-	t.decoder = korean.EUCKR.NewDecoder()
-	t.encoder = korean.EUCKR.NewEncoder()
+	t.charset = cs.name
+	t.decoder = cs.enc.NewDecoder()
+	t.encoder = cs.enc.NewEncoder()
+	b := vsymByte("b")
+	vsymAssume(b >= 0x80)
+	ref := cs.enc.NewDecoder()
+	dst := make([]byte, 8)
+	n, nsrc, err := ref.Transform(dst, []byte{b}, true)
+	vsymAssume(err == nil && n > 0 && nsrc == 1)
+	want, _ := utf8.DecodeRune(dst[:n])
+	// printable characters only: C1 controls (ISO 8859 0x80-0x9f) and undefined bytes are not text
+	vsymAssume(vsymAnd(want != utf8.RuneError, want >= 0xa0))
+	paste := vsymChoice("paste", 2) == 1
+	var s []byte
+	if paste {
+		s = append(s, "\x1b[200~"...)
+	}
+	s = append(s, 'x', b, 'y')
+	if paste {
+		s = append(s, "\x1b[201~"...)
+	}
+	k := vsymChoice("k", len(s)+1)
+	evs, left := h11Feed(t, s, k)
+	vsymAssert(left == 0, "single-byte charset: nothing stays buffered")
+	exp, off := 3, 0
+	if paste {
+		exp, off = 5, 1
+	}
+	vsymAssert(len(evs) == exp, "single-byte charset: one event per character")
+	if len(evs) != exp {
+		return
+	}
+	for i, w := range []rune{'x', want, 'y'} {
+		ek, isKey := evs[off+i].(*EventKey)
+		vsymAssert(isKey && ek.Key() == KeyRune && ek.Rune() == w, "single-byte charset: each character arrives as its rune, in order")
+	}
+	if paste {
+		p0, ok0 := evs[0].(*EventPaste)
+		p1, ok1 := evs[4].(*EventPaste)
+		vsymAssert(ok0 && p0.Start() && ok1 && p1.End(), "single-byte charset: pasted text is bracketed by paste-start and paste-end")
+	}
+}
+
+// h11MB: the stateless double-byte charsets the encoding package registers (the real
+// x/text decoders are executed symbolically; their tables are narrowed to the cells
+// the symbolic lead/trail bytes can select).
+type h11cs struct {
+	name  string
+	enc   xenc.Encoding
+	leads [][2]int // ranges of lead bytes that start at least one two-byte character
+}
+
+var h11MB = []h11cs{
+	{"EUC-KR", korean.EUCKR, [][2]int{{0x81, 0xc8}, {0xca, 0xfd}}},
+	{"EUC-JP", japanese.EUCJP, [][2]int{{0x8e, 0x8e}, {0xa1, 0xa8}, {0xad, 0xad}, {0xb0, 0xf4}, {0xf9, 0xfc}}},
+	{"Shift_JIS", japanese.ShiftJIS, [][2]int{{0x81, 0x84}, {0x87, 0x9f}, {0xe0, 0xea}, {0xed, 0xee}, {0xfa, 0xfc}}},
+	{"GBK", simplifiedchinese.GBK, [][2]int{{0x81, 0xfe}}},
+	{"Big5", traditionalchinese.Big5, [][2]int{{0x87, 0xfe}}},
+}
+
+func (c h11cs) leadList() []int {
+	var out []int
+	for _, r := range c.leads {
+		for v := r[0]; v <= r[1]; v++ {
+			out = append(out, v)
+		}
+	}
+	return out
+}
+
+// H11_legacy: every two-byte character of a double-byte legacy charset (lead byte in a
+// window of `leadspan` values chosen by `leadwin`, any trail byte the decoder accepts),
+// followed by an ASCII letter, split anywhere, arrives as the character then the letter.
+func H11_legacy() {
+	cs := h11MB[vsymChoice("charset", len(h11MB))]
+	vsymNote("charset", cs.name)
+	span := vsymParam("leadspan", 4)
+	ll := cs.leadList()
+	nwin := (len(ll) + span - 1) / span
+	// `leadwins` windows spread evenly over the lead bytes (all of them when leadwins >= nwin)
+	maxwin := vsymParam("leadwins", 64)
+	w := vsymChoice("leadwin", maxwin)
+	if maxwin < nwin {
+		w = w * nwin / maxwin
+	} else {
+		w = w % nwin // (charsets with fewer windows repeat some)
+	}
+	t := hNewTScreen("xterm-256color")
+	t.charset = cs.name
+	t.decoder = cs.enc.NewDecoder()
+	t.encoder = cs.enc.NewEncoder()
 	lead, trail := vsymByte("lead"), vsymByte("trail")
-	vsymAssume(vsymAnd(vsymAnd(lead >= 0xb0, lead <= 0xc8), vsymAnd(trail >= 0xa1, trail <= 0xfe))) // KS X 1001 Hangul block
+	in := false
+	for i := w * span; i < (w+1)*span && i < len(ll); i++ {
+		in = vsymOr(in, int(lead) == ll[i])
+	}
+	vsymAssume(in)
+	vsymAssume(trail >= 0x40)
 	s := []byte{lead, trail, 'a'}
 	// reference: the same decoder on the whole character
-	ref := korean.EUCKR.NewDecoder()
+	ref := cs.enc.NewDecoder()
 	dst := make([]byte, 8)
-	n, _, err := ref.Transform(dst, s[:2], true)
-	vsymAssume(err == nil && n > 0)
+	n, nsrc, err := ref.Transform(dst, s[:2], true)
+	vsymAssume(err == nil && n > 0 && nsrc == 2)
 	want, _ := utf8.DecodeRune(dst[:n])
-	vsymAssume(want != utf8.RuneError)
+	vsymAssume(want != utf8.RuneError && want >= 0x80)
 	k := vsymChoice("k", 4)
 	evs, left := h11Feed(t, s, k)
 	vsymAssert(left == 0, "legacy text: nothing stays buffered")
